@@ -40,6 +40,8 @@ EXTENDS TraceBase, Dedisp
 VARIABLES l, nbad
 
 Ok(c, name) == IF c THEN {} ELSE {name}
+\* the reference of a coherent event: finite (e.fref, Hz) or at infinite frequency
+Ref(e) == RefOf(e.fref, e.rinf)
 \* TLC applies a function expression [i \in S |-> e] by re-evaluating e on
 \* every application; TLCEval materialises it once.  EDft is the kernel DFT
 \* on materialised input, twiddles and output.
@@ -144,37 +146,36 @@ IncohFailed(e) ==
 (***************************************************************************)
 \* phase (floor(phase * 2^75), see Dedisp 1b) and 7 * budget B (Fix, rounded up)
 \* of one bin; f must be > 0
-BinInfo(kdm, fc, fref, N, dt, k) ==
+BinInfo(kdm, fc, ref, N, dt, k) ==
   LET bin == RDiv(RI(FftBin(k, N)), RMul(RI(N), dt))
       f == RAdd(fc, bin)
       pos == RSign(f) > 0
-      \* rho * (f |D| + 1 + f / fref) = rho * (|f - fref| + fref + f) / fref
-      g == RMul(RDiv(RAdd(RAbs(fc), RAbs(bin)), f),
-                RDiv(RAdd(RAbs(RSub(f, fref)), RAdd(fref, f)), fref))
+      rho == RDiv(RAdd(RAbs(fc), RAbs(bin)), f)
   IN [pos |-> pos,
-      phase |-> IF pos THEN ChirpPhaseFix(kdm, f, fref) ELSE Zero,
-      \* 7 * 2^-49 * K|DM||D| * g * 2^60 < 2^14 * (...), + 2 for the roundings
-      bud |-> IF pos THEN ChirpSlopeFix(kdm, f, fref, g, 14) ELSE Zero]
-BinExact(kdm, fc, fref, N, dt, k) ==
+      phase |-> IF pos THEN PhaseFixR(kdm, f, ref) ELSE Zero,
+      \* 7 * 2^-49 * K|DM||D| * g * 2^60 < 2^14 * (...), rounded up (Dedisp 1b)
+      bud |-> IF pos THEN SlopeFixR(kdm, f, ref, rho, 14) ELSE Zero]
+BinExact(kdm, fc, ref, N, dt, k) ==
   LET f == BinFreq(fc, k, N, dt)
-  IN /\ PhaseFixAgrees(kdm, f, fref)
-     /\ LET v == ChirpPhaseFix(kdm, f, fref)
+  IN /\ PhaseAgreesR(kdm, f, ref)
+     /\ LET v == PhaseFixR(kdm, f, ref)
             a == CosSinDy(v)
             b == CosSin(PhaseFixRat(v))
         IN FClose(a.c, b.c, FromInt(8)) /\ FClose(a.s, b.s, FromInt(8))
 PhaseH(v) == ChirpHFix(v)
 Tol2em6 == FFromRat(RMul(RI(2), RPow10(-6)))
 BudFix(bud) == bud
-BinOK(kdm, fc, fref, N, dt, k, val) ==
-  LET b == BinInfo(kdm, fc, fref, N, dt, k)
+BinOK(kdm, fc, ref, N, dt, k, val) ==
+  LET b == BinInfo(kdm, fc, ref, N, dt, k)
   IN b.pos /\ CClose(val, PhaseH(b.phase), Add(Tol2em6, b.bud))
 
 ChirpFailed(e) ==
   LET kdm == KDM(e.dm)
-  IN Ok(\A j \in 1..Len(e.ks) : BinOK(kdm, e.fc, e.fref, e.N, e.dt, e.ks[j], e.vals[j]), "chirp-law")
+  IN Ok(e.finite, "not-finite")
+     \cup Ok(\A j \in 1..Len(e.ks) : BinOK(kdm, e.fc, Ref(e), e.N, e.dt, e.ks[j], e.vals[j]), "chirp-law")
      \* sampled self-check of the bounded-precision phase against the exact one
      \cup (IF e.xcheck >= 0
-           THEN Ok(BinExact(kdm, e.fc, e.fref, e.N, e.dt, e.xcheck), "precondition-phasefix")
+           THEN Ok(BinExact(kdm, e.fc, Ref(e), e.N, e.dt, e.xcheck), "precondition-phasefix")
            ELSE {})
 
 (***************************************************************************)
@@ -184,17 +185,18 @@ ChirpFailed(e) ==
 \* object (then the code computes an exact zero)
 EdgeDelays(e) ==
   LET kdm == KDM(e.dm)
-      D(f) == DelayFixRat(SampleDelayFix(kdm, f, e.fref, e.rate))     \* to 2^-45 sample (Dedisp 1b)
+      D(f) == DelayFixRat(DelayFixR(kdm, f, Ref(e), e.rate))          \* to 2^-45 sample (Dedisp 1b)
   IN [top |-> IF e.refis = "top" THEN RZero ELSE D(e.top),
       bot |-> IF e.refis = "bot" THEN RZero ELSE D(e.bot),
-      agree |-> ~e.xcheck \/ (SampleDelayAgrees(kdm, e.top, e.fref, e.rate)
-                              /\ SampleDelayAgrees(kdm, e.bot, e.fref, e.rate))]
+      agree |-> ~e.xcheck \/ (DelayAgreesR(kdm, e.top, Ref(e), e.rate)
+                              /\ DelayAgreesR(kdm, e.bot, Ref(e), e.rate))]
 EdgeAmbiguous(e, dl) ==
   \/ (e.refis # "top" /\ RLt(DistToInt(dl.top), Eps6))
   \/ (e.refis # "bot" /\ RLt(DistToInt(dl.bot), Eps6))
 \* length, start time, metadata of the result
 CropClauses(e, w) ==
-  Ok(e.outlen = w.len, "length")
+  Ok(e.finite, "not-finite")
+  \cup Ok(e.outlen = w.len, "length")
   \cup StartClauses(e, w.first, w.len > 0 /\ e.outlen = w.len)
   \cup MetaClauses(e)
 
@@ -226,7 +228,7 @@ ToneFailed(e) ==
                             ELSE CClose(x[i], p, tolT) /\ go(i + 1, CMul(p, wk))
             IN go(1, x[1])
           ChanOK(c) ==
-            LET b == BinInfo(kdm, e.fq[c], e.fref, N, e.dt, e.ks[c])
+            LET b == BinInfo(kdm, e.fq[c], Ref(e), N, e.dt, e.ks[c])
                 h == PhaseH(b.phase)
                 tol == MulInt(Add(FTol10(5), BudFix(b.bud)), scale)
             IN b.pos /\ \A j \in 1..w.len :
@@ -248,7 +250,7 @@ DdFailed(e) ==
       LET w == CohWindow(N, dl.top, dl.bot, TRUE)
           W == TLCEval(Twiddles(N))
           Chan(c) ==
-            LET info == TLCEval([k \in 1..N |-> BinInfo(kdm, e.fq[c], e.fref, N, e.dt, k - 1)])
+            LET info == TLCEval([k \in 1..N |-> BinInfo(kdm, e.fq[c], Ref(e), N, e.dt, k - 1)])
                 X == EDft(TLCEval([i \in 1..N |-> CFromInts(e.x[c][i][1], e.x[c][i][2])]), -1, W)
                 Y == EDft(TLCEval([k \in 1..N |-> CMul(X[k], PhaseH(info[k].phase))]), 1, W)
                 y == TLCEval([k \in 1..N |-> CDivSmall(Y[k], N)])
@@ -285,7 +287,8 @@ RoundTripFailed(e) ==
           tol == FMul(FTol10(5), e.scale)
       \* the input must vanish (< 1e-9 max) outside the doubly cropped range
       IN IF ~(e.lo >= off + 2 /\ e.hi <= off + w2.len - 3) THEN {"precondition-support"}
-         ELSE Ok(e.len1 = w1.len /\ e.len2 = w2.len, "length")
+         ELSE Ok(e.finite, "not-finite")
+              \cup Ok(e.len1 = w1.len /\ e.len2 = w2.len, "length")
               \cup (IF e.hasT THEN Ok(RClose(e.adv1, RI(w1.first), e.advtol)
                                       /\ RClose(e.adv2, RI(off), e.advtol), "start") ELSE {})
               \cup (IF e.len2 = w2.len
@@ -296,6 +299,7 @@ RoundTripFailed(e) ==
 Failed(e) ==
   CASE e.ev \in {"tdelay", "sdelay"} -> DelayFailed(e)
     [] e.ev = "chain" -> ChainFailed(e)
+    [] e.ev = "lawargs" -> Ok(e.before = e.after, "argument-modified")
     [] e.ev = "incoh" -> IncohFailed(e)
     [] e.ev = "chirp" -> ChirpFailed(e)
     [] e.ev = "crop" -> CropFailed(e)
